@@ -211,3 +211,23 @@ package io
 //@   ensures[threshold_disabled] effThreshold(d) == 0 ==> err == nil && !result0
 //@   ensures[disabled_mode_counts_only] effThreshold(d) != 0 && disabledMode(d) ==> err == nil && result0 == (nodeToAdd != nil && namedBytes(d.node, name) == 0 && d.maxLinks > 0 && d.totalLinks + 1 > d.maxLinks)
 //@   ensures[block_mode] effThreshold(d) != 0 && blockMode(d) ==> res("call:BasicDirectory.needsToSwitchByBlockSize#0", 1) == err && (err == nil ==> result0 == res("call:BasicDirectory.needsToSwitchByBlockSize#0"))
+
+// ---- C09: DagReader.Seek follows io.Seeker -------------------------------------------------
+//@ func (*dagReader).Size
+//@   assumed
+//@   pure
+//@ func (*dagReader).resetPosition
+//@   assumed
+//@   modifies dr.offset, dr.currentNodeData, dr.dagWalker
+//@   ensures dr.offset == 0
+//@ func (*dagReader).Seek
+//@   prop C09
+//@   arith bv
+//@   requires dr != nil
+//@   modifies all
+//@   ensures[start] whence == io.SeekStart && err == nil ==> result0 == offset && dr.offset == offset
+//@   ensures[start_negative] whence == io.SeekStart && offset < 0 ==> err != nil && result0 == old(dr.offset) && dr.offset == old(dr.offset)
+//@   ensures[current] whence == io.SeekCurrent && err == nil ==> result0 == old(dr.offset) + offset && dr.offset == result0
+//@   ensures[end] whence == io.SeekEnd && err == nil ==> result0 == int64(res("call:dagReader.Size#0")) + offset && dr.offset == result0
+//@   ensures[unknown_whence] whence != io.SeekStart && whence != io.SeekCurrent && whence != io.SeekEnd ==> err != nil && dr.offset == old(dr.offset)
+//@   ensures[never_negative] err == nil && old(dr.offset) >= 0 ==> result0 >= 0
